@@ -127,6 +127,7 @@ type E2EResult struct {
 	FilterType  string
 	Live        []bool
 	IndexTagged [][]int
+	IndexArts   [][]string // artifact type of each entry of IndexTagged
 	Dangling    []string
 	DanglingOf  []int // per subject: index manifests once stored under its tag, still in the registry, not current
 	API         []Listing
@@ -720,6 +721,7 @@ func runE2EInner(c *E2ECase, res *E2EResult) {
 		_, res.Live[k] = stored[mans[k].desc.Digest]
 	}
 	res.IndexTagged = make([][]int, c.NSubjects)
+	res.IndexArts = make([][]string, c.NSubjects)
 	tagged := map[digest.Digest]bool{}
 	for name, d := range tg {
 		tagged[d] = true
@@ -738,6 +740,9 @@ func runE2EInner(c *E2ECase, res *E2EResult) {
 				}
 			}
 			res.IndexTagged[s] = l
+			for _, e := range idx.Manifests {
+				res.IndexArts[s] = append(res.IndexArts[s], e.ArtifactType)
+			}
 		}
 	}
 	for d, st := range stored {
